@@ -84,7 +84,8 @@ def gen_world(rng):
 
 def gen_prm_spec(rng, nd):
     return {"form": rng.weighted([("scalar", 3), ("array", 4), ("timevar", 2), ("ndarray", 1)]),
-            "dims": rng.subset(range(nd), 0, nd), "perm": rng.randint(0, 5), "vseed": rng.randint(0, 10 ** 6), "nan": rng.chance(0.06)}
+            "dims": rng.subset(range(nd), 0, nd), "perm": rng.randint(0, 5), "vseed": rng.randint(0, 10 ** 6), "nan": rng.chance(0.06),
+            "ints": rng.chance(0.15)}
 
 
 class _St:
@@ -312,8 +313,14 @@ class StockSim(Engine):
         form = spec["form"]
         if form == "scalar":
             return float(np.round(rs.uniform(lo, hi), 3))
+        def whole(v_):
+            # whole-number parameters held as integer arrays (lifetimes in years read from a table of ints)
+            st.probes["parameter_array_of_integer_type"] = st.probes.get("parameter_array_of_integer_type", 0) + 1
+            return np.maximum(np.round(v_), 1).astype(np.int64)
         if form == "ndarray":
             v = np.round(rs.uniform(lo, hi, size=dims.shape), 3)
+            if spec.get("ints") and not spec.get("nan"):
+                return whole(v)
             if spec.get("nan") and v.size > 1:
                 v.reshape(-1)[-1] = np.nan  # "not known" for one label combination: that series is NaN, the others are not affected
                 st.probes["parameter_with_nan_entry"] = st.probes.get("parameter_with_nan_entry", 0) + 1
@@ -335,6 +342,8 @@ class StockSim(Engine):
         if spec.get("nan") and v.size > 1:
             v.reshape(-1)[-1] = np.nan
             st.probes["parameter_with_nan_entry"] = st.probes.get("parameter_with_nan_entry", 0) + 1
+        elif spec.get("ints"):
+            v = whole(v)
         return FlodymArray(dims=ds, values=v)
 
     def _prm_kwargs(self, st, lt_name, specs, bad=None):
